@@ -1,6 +1,6 @@
 SPECIFICATION GSpec
 CONSTANTS GCs = {"g1", "g2"}
-          Pins = {"p1", "p2", "p3"}
+          Pins = {"p1", "p2"}
           Coop = {}
           WriterPref = TRUE
           ReqFirst = TRUE
